@@ -206,13 +206,18 @@ func children(n *Node, s subject) []subcase {
 		}
 	case "when":
 		if v.K == kMap {
-			if val, ok := v.get(n.S); ok {
-				out = append(out, subcase{n.Kids[0], subject{fmt.Sprintf("(get %s %q)", s.src, n.S), val}})
+			// the value at a missing key is nil, which is also what `get` answers
+			val, ok := v.get(n.S)
+			if !ok {
+				val = vNil()
 			}
-			if val, ok := v.get(n.S2); ok {
-				for _, c := range n.Kids[1:] {
-					out = append(out, subcase{c, subject{fmt.Sprintf("(get %s %q)", s.src, n.S2), val}})
-				}
+			out = append(out, subcase{n.Kids[0], subject{fmt.Sprintf("(get %s %q)", s.src, n.S), val}})
+			val, ok = v.get(n.S2)
+			if !ok {
+				val = vNil()
+			}
+			for _, c := range n.Kids[1:] {
+				out = append(out, subcase{c, subject{fmt.Sprintf("(get %s %q)", s.src, n.S2), val}})
 			}
 		}
 	}
@@ -826,7 +831,8 @@ func run(r *core.Run) {
 		"M: every malformed core x every embedding context, built and (if it builds) validated against every input; " +
 		"twins: every JSON-decoded / symbol-keyed input against its lisp-built / string-keyed counterpart. " +
 		"Non-trivial = a schema with at least one constraint that accepts at least one input and rejects at least one; distinct by schema source")
-	r.Assume("unspecified (only 'outcome is (), wrong-type or failed-constraint' is asserted): s:gt/gte/lt/lte/positive/negative on a non-number; s:len* on anything but an ASCII string, bytes or array; s:of with no allowed type on a non-empty array; s:of / s:may-have-key / s:no-other-keys / s:when on a value of the wrong container kind; s:when when the guard key or the match key is absent; s:is-truthy/is-falsy on nil, lists, functions, tagged values and symbols other than true/false; () under type bool (lang.md: nil represents false)")
+	r.Assume("unspecified (only 'outcome is (), wrong-type or failed-constraint' is asserted): s:gt/gte/lt/lte/positive/negative on a non-number; s:len* on anything but an ASCII string, bytes or array; s:of with no allowed type on a non-empty array; s:of / s:may-have-key / s:no-other-keys / s:when on a value of the wrong container kind; s:is-truthy/is-falsy on lists, functions, tagged values and symbols other than true/false; () under type bool (lang.md: nil represents false)")
+	r.Assume("s:when: the value at a missing guard key or match key is nil (documented by `get`: 'or nil if the key is not present'; the unchanged implementation agrees): a guard that accepts nil is satisfied by a map that omits the key and the clause applies; a map that omits a key validates exactly like one that binds it to nil / JSON null")
 	r.Assume("mixed int/float comparison follows the language (via float64, lang.md 'integer precision'): an int beyond 2^53 against a float, and int-vs-float equality under s:in, are unspecified; two ints compare exactly")
 	r.Assume("a rejection may carry either wrong-type or failed-constraint, except: base-type mismatch of a validator = wrong-type, a failing leaf constraint or s:not directly in a constraint list = failed-constraint (README)")
 	r.Assume("s:has-key / s:may-have-key without an allowed type only test presence (README: '(s:has-key name[ type ...])', 'You may wish to use this without a type set')")
